@@ -6,6 +6,7 @@ from analysis import chessref as R
 from analysis.cfg import cfg_of
 from analysis.effects import subterms, strip_casts
 
+THOROUGH_CONFIGS = ['release', 'nobmi2', 'movegen-alone']
 LEVEL = "other"
 DECIDED = ("R1 the per-square castling-right masks equal their definition for all 128 (colour, square) cells; R2-R5 the make-move skeleton, checked on EVERY path of "
            "move_unchecked_into up to the slider loop (120 paths over piece kind x capture x promotion x double step x en passant x castling side x colour): "
